@@ -84,7 +84,10 @@ def lift(x, dtype=None):
         dt = np.result_type(*[p.dtype for p in parts]) if dtype is None else np.dtype(dtype)
         arr = np.empty((len(parts),) + parts[0].shape, dtype=object)
         for i, p in enumerate(parts):
-            arr[i] = p._a
+            if p._a.ndim == 0:
+                arr[i] = p._a[()]
+            else:
+                arr[i, ...] = p._a
         return SymArray(_coerce_obj(arr, dt), dt)
     arr = np.asarray(x)
     if arr.dtype == object:
@@ -703,22 +706,16 @@ HANDLED[np.full_like] = lambda a, fill_value, dtype=None, shape=None, **kw: full
 
 
 def _first_index(vec, better):
-    """fork: index of the first element that `better`-dominates (argmax/argmin semantics of NumPy: first occurrence)"""
+    """fork: index of the first extremum (NumPy argmax/argmin semantics: first occurrence), by a
+    linear scan of atomic pairwise comparisons (decisions are cached per path)"""
     n = len(vec)
-    for i in range(n):
-        cond = SB(True)
-        for j in range(n):
-            if j < i:
-                cond = cond & better(vec[i], vec[j], True)
-            elif j > i:
-                cond = cond & better(vec[i], vec[j], False)
-        if i == n - 1:
-            if bool(cond):
-                return i
-            raise Abort('no arg-extremum')
-        if bool(cond):
-            return i
-    raise Abort('empty')
+    if n == 0:
+        raise ValueError('attempt to get argmax of an empty sequence')
+    best = 0
+    for j in range(1, n):
+        if bool(better(vec[j], vec[best], True)):
+            best = j
+    return best
 
 
 def _gt(a, b, strict):
